@@ -1386,7 +1386,8 @@ class Element(Mapping[str, Attribute]):
                     name = binformat.read_nullstr(file, encoding=encoding)
                 [attr_type_data] = binformat.struct_read('<B', file)
                 array_size: Optional[int]
-                if attr_type_data >= ARRAY_OFFSET:
+                # Scalar types are 1-ARRAY_OFFSET inclusive, arrays are offset by that.
+                if attr_type_data > ARRAY_OFFSET:
                     attr_type_data -= ARRAY_OFFSET
                     [array_size] = binformat.struct_read('<i', file)
                 else:
